@@ -380,9 +380,11 @@ def load_ops(lst):
 def run_one(level, case, scratch):
     ops = case["ops"]
     if level == "testcase":
-        world, init_code, steps = I.run_tc_history(case["seed"], case["salt"], case["cons"], case["init"], ops, scratch)
+        world, init_code, steps = I.run_tc_history(case["seed"], case["salt"], case["cons"], case["init"], ops, scratch,
+                                                   case.get("exc", False), case.get("chop"), case.get("maxlen"))
         return world, steps, c_tcase(world, init_code, steps)
-    world, steps = I.run_suite_history(case["seed"], case["salt"], case["cons"], ops, scratch)
+    world, steps = I.run_suite_history(case["seed"], case["salt"], case["cons"], ops, scratch,
+                                       case.get("exc", False), case.get("chop"), case.get("maxlen"))
     return world, steps, c_scase(world, steps)
 
 
@@ -403,14 +405,17 @@ def run(ctx: vlib.Ctx):
             mode = "real" if k % 2 == 0 else "model"
             n_ops = ctx.rng.choice([3, 6, 10, 16, 24])
             seed, salt = ctx.rng.randrange(10**9), ctx.rng.randrange(10**6)
+            # search configuration of the real operators: executions that raise at an early statement, chop of
+            # over-long tests on/off, small chromosome_length (tests at/over the limit, insertion refused)
+            cfg = {"exc": ctx.rng.random() < 0.6, "chop": ctx.rng.random() < 0.8, "maxlen": ctx.rng.choice([2, 3, 4, 6, 48])}
             if level == "testcase":
                 init, ops = gen(ctx.rng, n_ops, mode == "model")
                 cases.append({"level": level, "mode": mode, "seed": seed, "salt": salt, "cons": mode == "real" or ctx.rng.random() < 0.5,
-                              "init": init, "ops": ops})
+                              "init": init, "ops": ops, **cfg})
             else:
                 ops = gen(ctx.rng, n_ops, mode == "model")
                 cases.append({"level": level, "mode": mode, "seed": seed, "salt": salt, "cons": mode == "real" or ctx.rng.random() < 0.5,
-                              "ops": ops})
+                              "ops": ops, **cfg})
     terms = {"testcase": [], "suite": []}
     index = {"testcase": [], "suite": []}
     n_or = 0
@@ -424,6 +429,7 @@ def run(ctx: vlib.Ctx):
             ctx.count("operator-raised:" + e)
         ctx.case_seen((level, case["mode"], case.get("init"), case["ops"], case["salt"]), nontrivial=len(case["ops"]) > 1)
         ctx.count(f"history:{level}:{case['mode']}")
+        ctx.count(f"config:exc={case.get('exc', False)},chop={case.get('chop')},maxlen={case.get('maxlen')}")
         for s in steps:
             nm = s["op"][0] if s["op"][0] != "Member" else "Member." + s["op"][2][0]
             ctx.count(f"op:{level}:{nm}")
@@ -451,7 +457,8 @@ def run(ctx: vlib.Ctx):
                     return rr is not None and rr[0] == sig
                 ops2 = shrink_ops(list(case["ops"][:k + 1]), still)
                 ctx.fail(sig, msg, {"level": level, "mode": "real", "seed": case["seed"], "salt": case["salt"],
-                                    "cons": case["cons"], "init": case.get("init", 0),
+                                    "cons": case["cons"], "init": case.get("init", 0), "exc": case.get("exc", False),
+                                    "chop": case.get("chop"), "maxlen": case.get("maxlen"),
                                     "ops": [list(o) for o in ops2]})
     ctx.count("answers-differing-from-scratch(all modes, incl. deliberately undisciplined)", stale_seen)
     ctx.leg("S", oracle_failures=n_or, histories=sum(1 for c in cases if c["mode"] == "real"))
@@ -473,6 +480,7 @@ def run(ctx: vlib.Ctx):
                 ctx.broken(f"correspondence:C12-model-vs-{level}-chromosome",
                            "the cache/flag model (about which the theorems are proved) no longer reproduces the implementation",
                            {"level": level, "mode": case["mode"], "seed": case["seed"], "salt": case["salt"], "cons": case["cons"],
+                            "exc": case.get("exc", False), "chop": case.get("chop"), "maxlen": case.get("maxlen"),
                             "init": case.get("init", 0), "ops": [list(o) for o in case["ops"]],
                             "mismatching_histories": len(bad)})
         else:
